@@ -923,12 +923,12 @@ Proof.
     simpl in MW. pose proof (Forall_inv MW) as [TK TQ]. simpl in TK, TQ.
     inversion E; subst. eapply (I6_keff (MRetInvoke _ m0)); eauto.
     apply ke_submit_call; [apply ke_emit; [apply ke_refl | reflexivity] | destruct ci; exact I | | destruct ci; exact TQ].
-    apply (as_call_iwf s); [reflexivity | exact (Forall_inv_tail MW) | split; [exact TK | exact TQ]].
+    apply (as_call_iwf s); [reflexivity | exact (Forall_inv_tail (Forall_inv_tail MW)) | split; [exact TK | exact TQ]].
   - simpl in MW. pose proof (Forall_inv MW) as [TK TQ]. simpl in TK, TQ.
     destruct m0 as [mm|]; inversion E; subst.
     + eapply (I6_keff (MRetInvoke _ (Some mm))); eauto.
       apply ke_submit_call; [apply ke_emit; [apply ke_refl | reflexivity] | destruct ci; exact I | | destruct ci; exact TQ].
-      apply (as_call_iwf s); [reflexivity | exact (Forall_inv_tail MW) | split; [exact TK | exact TQ]].
+      apply (as_call_iwf s); [reflexivity | exact (Forall_inv_tail (Forall_inv_tail MW)) | split; [exact TK | exact TQ]].
     + eapply (I6_keff (MRetInvoke _ None)); eauto; [apply ke_emit; [apply ke_refl | reflexivity]|].
       simpl. rewrite cu_unsub; auto.
   - (* the notifier *)
@@ -945,7 +945,7 @@ Proof.
     + simpl in MW. pose proof (Forall_inv MW) as [TK TQ]. simpl in TK, TQ.
       eapply (I6_keff (MRetInvoke _ m0)); [reflexivity | exact QP | | reflexivity | exact I1].
       apply ke_submit_call; [apply ke_refl | destruct ci; exact I | | destruct ci; exact TQ].
-      apply (as_call_iwf s); [reflexivity | exact (Forall_inv_tail MW) | split; [exact TK | exact TQ]].
+      apply (as_call_iwf s); [reflexivity | exact (Forall_inv_tail (Forall_inv_tail MW)) | split; [exact TK | exact TQ]].
     + eapply (I6_keff (MRetInvoke _ m0)); [reflexivity | exact QP | apply ke_refl | reflexivity | exact I1].
   - (* the wrapper of a slab child *)
     destruct m0 as [mm|]; inversion E; subst.
